@@ -168,7 +168,8 @@ class BIFReader(object):
         return probability_expr, cpd_expr
 
     def variable_block(self):
-        start = re.finditer(r"\bvariable\s", self.network)
+        # "variable <name> {": a variable or a state may itself be named `variable`
+        start = re.finditer(r"\bvariable\s+[^\s{}()|,;]+\s*\{", self.network)
         for index in start:
             end = self.network.find("}\n", index.start())
             yield self.network[index.start() : end]
